@@ -1586,7 +1586,32 @@ fn cases_history(prop: &str, sc: &mut Scratch, out: &mut Out, mode: Mode, ss: &[
         };
         c.tags.push(format!("session:{}", (k + 1).min(4)));
         let after = o.re.as_ref().ok().map(|x| x.1.clone());
+        // identifiers handed out by create_* must name nothing that exists at that moment
+        let mut collision: Option<String> = None;
+        for (i, (op, x)) in ops.iter().zip(&o.outs).enumerate() {
+            let before = &o.dumps[i];
+            match op {
+                Op::CreateNode(_) | Op::CreateNodeProps(..) | Op::SessNode(..) | Op::SessTxNode(_) => {
+                    let id = out_id(x);
+                    if before.nodes.iter().any(|n| n.0 == id) {
+                        collision = Some(format!("{} returned node id {} which already exists", op_short(op), id));
+                    }
+                }
+                Op::CreateEdge(..) | Op::CreateEdgeProps(..) => {
+                    let id = out_id(x);
+                    if before.edges.iter().any(|e| e.0 == id) {
+                        collision = Some(format!("{} returned edge id {} which already exists", op_short(op), id));
+                    }
+                }
+                _ => {}
+            }
+        }
         match end {
+            End::Close if collision.is_some() && prop == "C05" => {
+                c.tags.push("end:close".into());
+                c.oracle = Oracle::Fail;
+                c.msg = collision.clone().unwrap();
+            }
             End::Close => {
                 c.tags.push("end:close".into());
                 let same = after.as_ref() == Some(&o.lat);
@@ -1899,6 +1924,25 @@ fn case_import(bytes: &[u8], what: &str, tags: Vec<String>, valid_len: usize) ->
             c.oracle = Oracle::Fail;
             c.msg = "import accepts bytes that do not decode as a snapshot".into();
         }
+        (CopyObs::Ok(..), Some((sn, _))) if sn.version != 1 => {
+            c.oracle = Oracle::Fail;
+            c.msg = format!("import accepts a snapshot of version {}", sn.version);
+        }
+        (CopyObs::Ok(_, lat, _, _), Some((sn, _))) if lat.nodes.len() != sn.nodes.len() || lat.edges.len() != sn.edges.len() => {
+            // (distinct ids in every generated snapshot) a partially filled database
+            let mut ids: Vec<u64> = sn.nodes.iter().map(|n| n.id.as_u64()).collect();
+            ids.sort();
+            ids.dedup();
+            let mut eids: Vec<u64> = sn.edges.iter().map(|e| e.id.as_u64()).collect();
+            eids.sort();
+            eids.dedup();
+            if ids.len() != lat.nodes.len() || eids.len() != lat.edges.len() {
+                c.oracle = Oracle::Fail;
+                c.msg = format!("import built {} nodes / {} edges from a snapshot naming {} / {}", lat.nodes.len(), lat.edges.len(), ids.len(), eids.len());
+            } else {
+                c.oracle = Oracle::Ok;
+            }
+        }
         _ => c.oracle = Oracle::Ok,
     }
     let _ = valid_len;
@@ -2090,12 +2134,18 @@ fn main() {
         "C06" => {
             corpus_c06(&mut sc, &mut out);
             // (i) writer bytes in every mode, with rotation
-            for _ in 0..a.cases / 2 {
+            for i in 0..a.cases / 2 {
                 let mut r = rng.fork();
                 let mut tags = vec![];
                 let mode = Mode::random(&mut r);
                 let max = *r.pick(&[64u64, 100, 160, 300, 9000, ENGINE_MAX]);
                 let mut ops = gen_wops(&mut r, &mut tags, true);
+                if i == 0 {
+                    // one record longer than 64 KiB: the length prefix is a full u32
+                    ops.insert(0, WOp::Log(WalRecord::SetNodeProperty { id: NodeId::new(2), key: "big".into(), value: Value::String("z".repeat(66_000).as_str().into()) }));
+                    ops.insert(1, WOp::Log(WalRecord::TxCommit { tx_id: TxId::new(2) }));
+                    tags.push("record>64KiB".into());
+                }
                 if r.chance(1, 10) {
                     // more than the BufWriter holds
                     for _ in 0..6 {
